@@ -10,6 +10,7 @@
 #include "common.hpp"
 #include "env_server.hpp"
 #include <sys/wait.h>
+#include <sys/ioctl.h>
 #include <sys/stat.h>
 #include <dirent.h>
 #include <fcntl.h>
@@ -151,13 +152,18 @@ std::string run(const std::vector<std::string> & a)
             bool in_recv = s.rfind("45 ", 0) == 0 || s.rfind("47 ", 0) == 0;      // recvfrom / recvmsg (x86-64)
             if (in_recv && s == last_sys) same++; else same = 0;
             last_sys = s;
-            return in_recv && same >= 5;
+            return in_recv && same >= 8;
+        };
+        // ... and the server really has nothing to answer: no unread byte of the client is waiting in its socket
+        auto server_has_input = [&]() -> bool {
+            int fd = srv.cur_fd; int n = 0;
+            return fd >= 0 && ::ioctl(fd, FIONREAD, &n) == 0 && n > 0;
         };
         for (;;)
         {
             pollfd p{out[0], POLLIN, 0};
             int pr = ::poll(&p, 1, 100);
-            if (pr == 0 && blocked_in_recv() && srv.idle && (!srv.core.peer.worker.joinable() || srv.core.peer.done))
+            if (pr == 0 && blocked_in_recv() && srv.idle && !server_has_input() && (!srv.core.peer.worker.joinable() || srv.core.peer.done))
             {
                 srv.kick = true; same = 0;
             }
